@@ -134,6 +134,13 @@ func c04Mutants(rng *rand.Rand, p cashu.Proof, out client.Output, sig cashu.Blin
 	q = p
 	q.C = "zz" + p.C[2:]
 	add("C-nonhex", q)
+	// the genuine point followed by something that is not hex (a decoder that returns the bytes
+	// read before its error would hand the genuine point on)
+	for cls, tail := range map[string]string{"C-genuine+odd-digit": "0", "C-genuine+zz": "zz", "C-genuine+newline": "\n", "C-genuine+space-word": " x", "C-genuine+comma-point": "," + other.C, "C-genuine-upper-case+zz": "ZZ"} {
+		q = p
+		q.C = p.C + tail
+		add(cls, q)
+	}
 	q = p
 	q.C = ""
 	add("C-empty", q)
